@@ -915,7 +915,7 @@ def check(rep, tier, seed, variant="hooks", ngraphs=None, ngroups=None):
     b = B.ensure(variant)
     rep.builds.add(variant)
     exe = b.native("envprobe")
-    ngraphs = ngraphs or (100 if tier == "quick" else 3000)
+    ngraphs = ngraphs or (100 if tier == "quick" else 2000)
     ngroups = ngroups or 18
     jobs = [(b, exe, gi, seed * 1000003 + gi * 7 + 14, ngroups, 2) for gi in range(ngraphs)]
     heapfail = 0
